@@ -78,6 +78,7 @@ struct Inode {
     std::map<int, int> locks;                            // pid -> F_RDLCK/F_WRLCK (not part of snapshots)
     int opens = 0;
     int rewriting_pid = 0;                               // a store sequence (truncate .. unlock/close) is under way by this pid
+    std::map<const void*, int> sqlocks;                  // SQLite file handle -> lock level (1 SHARED .. 4 EXCLUSIVE); not part of snapshots
 };
 typedef std::shared_ptr<Inode> InodeP;
 
@@ -126,6 +127,7 @@ void mon_clear_disk_secrets();
 void mon_scan_file(const std::string& path, const std::string& data);
 
 void exec_note_created(const std::string& path);
+void simvfs_register();              // SQLite VFS over the simulated disk (paths under /sim/); everything else goes to the unix VFS
 
 // ---------------------------------------------------------------- RNG seam
 void rng_install(uint64_t seed);
@@ -136,6 +138,7 @@ extern std::vector<std::string>* g_rng_capture;   // when non-null, every draw i
 extern "C" {
 struct stat; struct dirent;
 int __real_ftruncate(int, off_t);
+int __real_close(int);
 int __real_fstat(int, struct stat*);
 int __real_lstat(const char*, struct stat*);
 int __real_access(const char*, int);
